@@ -182,6 +182,10 @@ func convertBase64(data interface{}) {
 			switch d[0].(type) {
 			case string:
 				for i, s := range d {
+					// Arrays may be heterogeneous; leave non-strings alone.
+					if _, ok := s.(string); !ok {
+						continue
+					}
 					decoded, err := base64.StdEncoding.DecodeString(s.(string))
 					if err == nil && len(decoded) == 32 {
 						ch, err := chainhash.NewHash(decoded)
@@ -233,6 +237,10 @@ func convertHex(data interface{}) {
 			switch d[0].(type) {
 			case string:
 				for i, s := range d {
+					// Arrays may be heterogeneous; leave non-strings alone.
+					if _, ok := s.(string); !ok {
+						continue
+					}
 					ch, err := chainhash.NewHashFromStr(s.(string))
 					if err == nil && len(s.(string)) == 64 {
 						d[i] = base64.StdEncoding.EncodeToString(ch.CloneBytes())
